@@ -1,7 +1,7 @@
 (* ===== C10 : model-spec metadata indexes the generated columns truthfully ===== *)
-From Coq Require Import List NArith Bool Arith Permutation.
+From Coq Require Import List NArith ZArith QArith Qcanon Bool Arith Permutation.
 Import ListNotations.
-Require Import StrOrder Struct SpecMeta SpecMetaLaws SubsetLaws Mat ReplayLaws.
+Require Import StrOrder Struct SpecMeta SpecMetaLaws SubsetLaws Mat Mat2 ReplayLaws MatSep SubsetReplay.
 Open Scope nat_scope.
 
 (* the reported column names are the actual column labels of the matrix the model builds *)
@@ -49,6 +49,41 @@ Theorem C10_subset_is_parent_columns : forall rows, NoDup (map (fun r => tkey (r
   exists ix, get_term_indices rows chosen = Some ix /\ map (nth_error (column_names rows)) ix = map Some (column_names sub).
 Proof. exact subset_is_parent_columns. Qed.
 
+(* ... and at the level of the matrix: replaying a recorded structure treats every row on its own *)
+Theorem C10_replay_is_term_by_term : forall sp evs drop nk rows acc out,
+  replay_terms sp evs drop nk rows acc = inl out <->
+  exists per, Forall2 (fun row cols => term_replay (sp_enc sp) evs drop nk row = inl cols) rows per /\ out = fold_left dict_update per acc.
+Proof. exact replay_terms_per_term. Qed.
+(* so a spec holding ANY selection of the parent's rows in ANY order (with the parent's recorded encoder state and configuration), replayed
+   on the same data, yields for every selected term exactly the columns the parent yields for it -- provided the same rows are kept *)
+Theorem C10_subset_regenerates_parent_columns : forall sp sub d n caller names cols drop,
+  sp_enc sub = sp_enc sp -> sp_cfg sub = sp_cfg sp -> incl (sp_struct sub) (sp_struct sp) ->
+  consistent (concat (sp_terms sp)) -> incl (concat (sp_terms sub)) (concat (sp_terms sp)) ->
+  (forall row st sf, In row (sp_struct sub) -> In st (fst row) -> In sf (st_f st) -> exists g, In g (concat (sp_terms sub)) /\ fx g = sf_expr sf) ->
+  replay sp d n caller = inl (names, cols, drop) ->
+  forall evs evs', eval_pool d (pool_of (sp_terms sp)) [] = inl evs -> eval_pool d (pool_of (sp_terms sub)) [] = inl evs' ->
+  drop_set {| full_rank := full_rank (sp_cfg sp); na_action := na_action (sp_cfg sp); caller_drop := caller |} evs' = drop ->
+  (na_action (sp_cfg sp) = NaRaise -> all_nulls evs' = []) ->
+  exists per, Forall2 (fun row c => term_replay (sp_enc sp) evs drop (n - length drop) row = inl c) (sp_struct sub) per /\
+              replay sub d n caller = inl (map fst (fold_left dict_update per []), map snd (fold_left dict_update per []), drop).
+Proof. exact subset_replay. Qed.
+
+(* the hypotheses are met by a concrete parent 'a + A' (A recorded with levels x, y) and its subset to the second term, in reverse order *)
+Example C10_subset_replay_example :
+  let fa := {| fx := [97]%N; fk := FLookup |} in let fA := {| fx := [65]%N; fk := FLookup |} in
+  let ra := ([{| st_f := [([97]%N, false)]; st_scale := Q2Qc 1 |}], [[97]%N]) in
+  let rA := ([{| st_f := [([65]%N, false)]; st_scale := Q2Qc 1 |}], [[65;91;120;93]%N; [65;91;121;93]%N]) in
+  let enc := [([97]%N, KNum); ([65]%N, KCat [[120]%N; [121]%N])] in
+  let cf := {| full_rank := false; na_action := NaDrop; caller_drop := [] |} in
+  let sp := {| sp_terms := [[fa]; [fA]]; sp_struct := [ra; rA]; sp_enc := enc; sp_cfg := cf |} in
+  let sub := {| sp_terms := [[fA]; [fa]]; sp_struct := [rA; ra]; sp_enc := enc; sp_cfg := cf |} in
+  let d := [([97]%N, CNum [Some (Q2Qc 2); Some (Q2Qc 3)]); ([65]%N, CCat [Some [121]%N; Some [120]%N] None)] in
+  replay sp d 2 [] = inl ([[97]%N; [65;91;120;93]%N; [65;91;121;93]%N],
+                          [[Some (Q2Qc 2); Some (Q2Qc 3)]; [Some (Q2Qc 0); Some (Q2Qc 1)]; [Some (Q2Qc 1); Some (Q2Qc 0)]], []) /\
+  replay sub d 2 [] = inl ([[65;91;120;93]%N; [65;91;121;93]%N; [97]%N],
+                           [[Some (Q2Qc 0); Some (Q2Qc 1)]; [Some (Q2Qc 1); Some (Q2Qc 0)]; [Some (Q2Qc 2); Some (Q2Qc 3)]], []).
+Proof. vm_compute. split; reflexivity. Qed.
+
 Example C10_subset_example :
   let rows := [ {| r_factors := [[49]%N]; r_cols := [[73]%N]; r_vars := [] |};
                 {| r_factors := [[66]%N; [65]%N]; r_cols := [[120]%N; [121]%N]; r_vars := [[66]%N; [65]%N] |};
@@ -77,5 +112,8 @@ Print Assumptions C10_variable_indices_exact.
 Print Assumptions C10_subset_defined_iff.
 Print Assumptions C10_subset_keeps_chosen_order.
 Print Assumptions C10_subset_is_parent_columns.
+Print Assumptions C10_replay_is_term_by_term.
+Print Assumptions C10_subset_regenerates_parent_columns.
+Print Assumptions C10_subset_replay_example.
 Print Assumptions C10_subset_example.
 Print Assumptions C10_example.
